@@ -12,6 +12,8 @@ Open Scope N_scope.
 Inductive sop :=
 | SGetRow                                   (* GetDeviceByDevAddr / GetDeviceByEUI: this device's row and nonces *)
 | SUpdateState (dev : device)
+| SAdvanceUp (accepted newfup : N) (kw : bool)   (* AdvanceFCntUp: compare and store in one statement *)
+| SNextDn                                       (* NextFCntDn: reserve the next downlink counter *)
 | SCreateUpstream (m : umsg)
 | SGetApp (eui : N)
 | SSetAckFlag (b : bool)
@@ -26,12 +28,12 @@ Inductive sop :=
 | SUpdateDevice (dev : device)
 | SSetJoinAccept (j : joinacc).
 
-Inductive sres := XErr (e : option serr) | XRow (r : option device) | XMsg (m : option dmsg) | XPhy (g : getres) | XApp (b : bool).
+Inductive sres := XErr (e : option serr) | XRow (r : option device) | XMsg (m : option dmsg) | XPhy (g : getres) | XApp (b : bool) | XCnt (c : option N).
 
 (* the name the gate hook reports for the operation *)
 Definition sop_name (o : sop) : string :=
   match o with
-  | SGetRow => "GetDevice" | SUpdateState _ => "UpdateDeviceState" | SCreateUpstream _ => "CreateUpstreamMessage"
+  | SGetRow => "GetDevice" | SUpdateState _ => "UpdateDeviceState" | SAdvanceUp _ _ _ => "AdvanceFCntUp" | SNextDn => "NextFCntDn" | SCreateUpstream _ => "CreateUpstreamMessage"
   | SGetApp _ => "GetApplicationByEUI" | SSetAckFlag _ => "SetMessageAckFlag" | SUpdateAckTime _ _ => "UpdateMessageAckTime"
   | SResetAcks => "ResetActiveAcks" | SGetNextUnsent => "GetNextUnsentMessage" | SSetPayload _ _ _ => "SetPayload"
   | SSetSentTime _ _ _ => "SetMessageSentTime" | SGetPhy _ => "GetPHYPayloadForDevice" | SEmit _ _ => "handoff:encOutput"
@@ -43,6 +45,8 @@ Definition exec (apps : list N) (st : dstate) (o : sop) : dstate * sres * list o
   match o with
   | SGetRow => (st, XRow (match ds_row st with Some r => Some (load st r) | None => None end), [])
   | SUpdateState dev => let '(st', e) := l_update_device_state st dev in (st', XErr e, [])
+  | SAdvanceUp a nf kw => let '(st', e) := l_advance_fup st a nf kw in (st', XErr e, [])
+  | SNextDn => let '(st', c) := l_next_fdn st in (st', XCnt c, [])
   | SCreateUpstream m => let '(st', e) := l_create_upstream st m in (st', XErr e, [])
   | SGetApp eui => (st, XApp (has_app apps eui), [])
   | SSetAckFlag b => (l_set_ack_flag st b, XErr None, [])
@@ -64,6 +68,7 @@ Definition can_fail (o : sop) : bool :=
 Definition failed (o : sop) : sres :=
   match o with
   | SGetRow => XRow None | SGetApp _ => XApp false | SGetNextUnsent => XMsg None | SGetPhy _ => XPhy GetErr
+  | SNextDn => XCnt None
   | _ => XErr (Some SInjected)
   end.
 
@@ -72,19 +77,23 @@ Inductive prog := Halt (o : list out) | Do (o : sop) (k : sres -> prog).
 Section Steps.
   Variable E D : list N -> list N -> list N.
 
-  (* Encoder.processMessage, data downlink *)
+  (* Encoder.processMessage, data downlink: reserve the counter, encode with it, mark the message, hand over *)
   Definition enc_data_prog (dev : device) (p : phyout) (rx : rxpacket) (created now : N) (fin : list out) : prog :=
-    match encode_message E (d_nwkskey dev) (d_appskey dev) (downlink_frame dev p) with
-    | Ok buf =>
-      Do (SSetSentTime created now (d_fup dev)) (fun _ =>
-      Do (SUpdateState (set_counters dev (d_fup dev) ((d_fdn dev + 1) mod 65536) (d_keywarn dev))) (fun r =>
-      match r with
-      | XErr None =>
+    match encode (downlink_frame dev p 0) with
+    | Ok _ =>
+    Do SNextDn (fun r =>
+    match r with
+    | XCnt (Some c) =>
+      match encode_message E (d_nwkskey dev) (d_appskey dev) (downlink_frame dev p c) with
+      | Ok buf =>
+        Do (SSetSentTime created now (d_fup dev)) (fun _ =>
         if (length buf =? 0)%nat then Halt fin
-        else Do (SEmit {| dl_raw := buf; dl_radio := rx_radio rx; dl_gw := rx_gw rx; dl_rx1delay := 1; dl_eui := d_eui dev |} (d_fdn dev))
-                (fun _ => Halt fin)
+        else Do (SEmit {| dl_raw := buf; dl_radio := rx_radio rx; dl_gw := rx_gw rx; dl_rx1delay := 1; dl_eui := d_eui dev |} c)
+                (fun _ => Halt fin))
       | _ => Halt fin
-      end))
+      end
+    | _ => Halt fin
+    end)
     | _ => Halt fin
     end.
   (* Encoder.processMessage, join-accept *)
@@ -146,7 +155,12 @@ Section Steps.
           end) in
         if d_fup dev <=? fcnt f then
           let dev1 := set_counters dev ((fcnt f + 1) mod 65536) (d_fdn dev) kw in
-          Do (SUpdateState dev1) (fun r => match r with XErr None => body dev1 | _ => Halt [] end)
+          Do (SAdvanceUp (fcnt f) ((fcnt f + 1) mod 65536) kw) (fun r =>
+            match r with
+            | XErr None => body dev1
+            | XErr (Some SNotFound) => if d_relaxed dev then body dev1 else Halt []   (* another handler was first *)
+            | _ => Halt []
+            end)
         else body (set_counters dev (d_fup dev) (d_fdn dev) kw)
     | _ => Halt []
     end).
